@@ -268,6 +268,8 @@ func models() []*ref.G {
 	withSRID.SRID = 4326
 	withSRID.Kids[0].SRID, withSRID.Kids[1].SRID = 4326, 3857
 	out = append(out, withSRID)
+	// a Z collection that holds a still empty, layout-less collection next to its members
+	out = append(out, ref.NewCollection(geom.NoLayout, ref.NewPoint(geom.XYZ, true, val()), ref.NewCollection(geom.NoLayout), ref.NewLine(ref.LineString, geom.XYZ, 2, val())))
 	return out
 }
 
